@@ -66,3 +66,51 @@ def uuid_realizes_bytes():
         return orig(self, val, bytes=bytes, int=int)
     __init__._verif_wrapped = True
     datatypes.UUID.__init__ = __init__
+
+
+class PyProxy:
+    """pure-Python stand-in for the C extension type lazy_object_proxy.Proxy (environment stub: the
+    extension forces/realizes symbolic values at the C boundary). Same contract: wraps a factory, evaluates it on
+    first use, exposes the result as __wrapped__."""
+
+    def __init__(self, factory):
+        self._factory = factory
+        self._have = False
+        self._value = None
+
+    @property
+    def __wrapped__(self):
+        if not self._have:
+            self._value = self._factory()
+            self._have = True
+        return self._value
+
+
+def python_lazy_proxy(module):
+    import types
+    module.lazy_object_proxy = types.SimpleNamespace(Proxy=PyProxy)
+
+
+def force(v):
+    return v.__wrapped__ if isinstance(v, PyProxy) else v
+
+
+def realized_literal_roundtrip(pod) -> bool:
+    """ast.literal_eval(repr(pod)) == pod, evaluated on the realized value outside the tracer (compile() is C)."""
+    import ast
+    import sys
+    if "crosshair.tracers" in sys.modules:
+        from crosshair.tracers import NoTracing, is_tracing
+        if is_tracing():
+            from crosshair.core import deep_realize
+            pod = deep_realize(pod)
+            with NoTracing():
+                return _lit(ast, pod)
+    return _lit(ast, pod)
+
+
+def _lit(ast, pod):
+    try:
+        return ast.literal_eval(repr(pod)) == pod
+    except (ValueError, SyntaxError):
+        return False
